@@ -33,6 +33,26 @@ def run(ck: Check):
     ck.cov["worst_case_tests"] = {f"{k[0]}/n={k[1]}": {"tests": v, "bound": c09_bound(k[1])}
                                   for k, v in worst.items()}
     extra(ex, ck, worst)
+    # chunk sizes the command line must refuse (0, negative, not a power of two) through every option that sets them: if
+    # one is accepted after all, the run still has to end within the bound and without an internal error
+    from explore import replay_doc
+    from runner import Refused, impl_run
+    for strategy in ("minimize", "minimize-around", "minimize-balanced", "minimize-collapse-brace", "replace-properties-by-globals"):
+        for argv in (["--chunk-size", "0"], ["--chunk-size=-1"], ["--chunk-size", "-2"], ["--chunk-size", "3"], ["--min", "0"], ["--max=0"],
+                     ["--min", "-4"], ["--max", "-2"], ["--min=3"], ["--chunk-size", "6", "--repeat", "always"]):
+            for v in ("Y" * 3000, "Y" + "NY" * 1500):
+                tcx = (b"", [b"l%d\n" % i for i in range(6)], [True] * 6, b"")
+                ck.count("refused-options")
+                try:
+                    run_ = impl_run(strategy, {"argv": argv}, tcx, content(tcx), v, cap=c09_bound(6) + 1, watchdog=20.0)
+                except Refused:
+                    continue
+                ck.nontrivial(("accepted-odd-options", strategy, tuple(argv)))
+                if run_.exc is not None or run_.tests > c09_bound(6):
+                    ctx = {"strategy": strategy, "cfg": {"argv": argv}, "tc": tcx, "file0": content(tcx), "verdicts": v[:8], "clock": [],
+                           "atom": "line", "exc_class": "TestRaised", "load": False}
+                    ck.violation(f"{strategy} {' '.join(argv)} was accepted by the option parser and then ran {run_.tests} tests on 6 atoms "
+                                 f"(bound {c09_bound(6)}), ending with {run_.exc}", replay_doc(ctx, run_))
     ex.diff()
     return ck.finish(level="proof", rule=RULE)
 
